@@ -363,8 +363,9 @@ struct IqEnv {
     }
 };
 
-static void runIqSeq(const std::string &own, bool sock, bool sm, const std::vector<std::string> &ops)
+static void runIqSeq(const std::string &own, bool sock, bool sm, const std::vector<std::string> &ops, bool emitSample = false)
 {
+    std::string smp = "reset iq " + own + (sock ? " 1" : " 0") + (sm ? " 1" : " 0") + "; ";
     IqEnv env(own, sock, sm);
     corr("reset iq " + own + " " + (sock ? "1" : "0") + " " + (sm ? "1" : "0"), "ok");
     for (auto op : ops) {
@@ -376,8 +377,11 @@ static void runIqSeq(const std::string &own, bool sock, bool sm, const std::vect
             int n = atoi(op.substr(pos + 1, end - pos - 1).c_str());
             op = op.substr(0, pos) + (env.gens > 0 ? "g" + std::to_string(n % env.gens) : std::string("a")) + op.substr(end);
         }
-        corr(op, env.apply(op));
+        std::string obs = env.apply(op);
+        corr(op, obs);
+        if (emitSample) smp += op + " => " + obs + "; ";
     }
+    if (emitSample) sample(smp);
     if (env.c) corr("destroy", env.apply("destroy"));   // exactly once: whatever is left must complete now
     stat("iq_sequences");
 }
@@ -520,9 +524,7 @@ struct MamEnv {
 static void runMamSeq(bool e2ee, bool instant, const std::vector<std::string> &ops)
 {
     MamEnv env(e2ee, instant);
-    // C07_MAM_FIXED=1: compare against the model of the library with fixes/C07-mam-empty-page.diff applied
-    static const bool fixedModel = getenv("C07_MAM_FIXED") != nullptr;
-    corr(std::string("reset mam ") + (e2ee ? "1" : "0") + " " + (instant ? "1" : "0") + (fixedModel ? " fixed" : ""), "ok");
+    corr(std::string("reset mam ") + (e2ee ? "1" : "0") + " " + (instant ? "1" : "0"), "ok");
     for (auto &op : ops) corr(op, env.apply(op));
     // closing suffix: let every outstanding decryption job report, then make sure the IQ has been answered
     for (size_t k = 0; k < env.e2ee.jobs.size(); k++)
@@ -778,13 +780,14 @@ int main(int argc, char **argv)
         uint32_t v = rng.below(10);
         std::string own = v == 0 ? "-" : OWN;
         bool sock = v == 1 || v == 2, sm = !(v == 2 || v == 3);
-        if (n < 3) { std::string s = "reset iq " + own + "; "; for (auto &o : ops) s += o + "; "; sample(s); }
-        runIqSeq(own, sock, sm, ops);
+        runIqSeq(own, sock, sm, ops, n < 3);
     }
     stat("random_sequences", nrand);
 
     // ---- Part B: archive retrieval machine
-    runMamSeq(true, false, { "start", "fin" });                       // the defect witness
+    // corpus first: the witness of the defect fixed by repo commit bf0355b (e2ee + empty result page never finished;
+    // oracle key C07:mam:e2ee-empty-page-never-finishes)
+    runMamSeq(true, false, { "start", "fin" });
     runMamSeq(true, true, { "start", "fin" });
     runMamSeq(true, false, { "start", "msg 1 1", "msg 1 0", "fin", "dec 0" });
     runMamSeq(false, false, { "start", "fin" });
